@@ -118,15 +118,23 @@ func (i *interpreter) block(what string, ready func() bool) {
 // yield lets other runnable goroutines run (current stays runnable).
 func (i *interpreter) yield() {
 	g := i.cur
-	// temporarily mark current as lowest priority: run the first other runnable goroutine
+	// current stays runnable but gives way: run another runnable goroutine (solver-chosen in explored mode)
+	var others []*goroutine
 	for _, h := range i.gs {
 		if h != g && h.runnable() {
-			i.cur = h
-			h.resume <- struct{}{}
-			g.park()
-			return
+			others = append(others, h)
 		}
 	}
+	if len(others) == 0 {
+		return
+	}
+	h := others[0]
+	if i.cfg.Sched != nil {
+		h = others[i.cfg.Sched(i, len(others))]
+	}
+	i.cur = h
+	h.resume <- struct{}{}
+	g.park()
 }
 
 func (i *interpreter) switchAway() {
@@ -279,6 +287,9 @@ func (c *channel) close() {
 
 func (i *interpreter) chanSend(c *channel, v value) {
 	i.preempt("chan-send")
+	if c != nil {
+		i.hbRelease(c)
+	}
 	if c.trySend(v) {
 		return
 	}
@@ -295,6 +306,7 @@ func (i *interpreter) chanSend(c *channel, v value) {
 func (i *interpreter) chanRecv(c *channel) (value, bool) {
 	i.preempt("chan-recv")
 	if v, ok, done := c.tryRecv(); done {
+		i.hbAcquire(c)
 		return v, ok
 	}
 	sel := &selState{fired: -1}
@@ -302,6 +314,7 @@ func (i *interpreter) chanRecv(c *channel) (value, bool) {
 		c.recvq = append(c.recvq, &waiter{sel: sel, caseIdx: 0})
 	}
 	i.block("chan recv", func() bool { return sel.fired >= 0 })
+	i.hbAcquire(c)
 	return sel.recvVal, sel.recvOK
 }
 
@@ -315,6 +328,9 @@ func (i *interpreter) doSelect(fr *frame, instr *ssa.Select) value {
 		chans[k], _ = fr.get(st.Chan).(*channel)
 		if st.Dir == types.SendOnly {
 			sends[k] = fr.get(st.Send)
+			if chans[k] != nil {
+				i.hbRelease(chans[k])
+			}
 		}
 	}
 	chosen := -1
@@ -364,6 +380,9 @@ func (i *interpreter) doSelect(fr *frame, instr *ssa.Select) value {
 		}
 		chosen, recv, recvOK = sel.fired, sel.recvVal, sel.recvOK
 	}
+	if chosen >= 0 && instr.States[chosen].Dir == types.RecvOnly && chans[chosen] != nil {
+		i.hbAcquire(chans[chosen])
+	}
 	r := tuple{chosen, recvOK}
 	for k, st := range instr.States {
 		if st.Dir == types.RecvOnly {
@@ -405,12 +424,14 @@ func (i *interpreter) lock(p *value) {
 	m := i.mutex(p)
 	i.block("mutex lock", func() bool { return !m.writer && m.readers == 0 })
 	m.writer = true
+	i.hbAcquire(p)
 }
 func (i *interpreter) unlock(p *value) {
 	m := i.mutex(p)
 	if !m.writer {
 		panic(runtimeError("sync: unlock of unlocked mutex"))
 	}
+	i.hbRelease(p)
 	m.writer = false
 	i.preempt("unlock")
 }
@@ -419,12 +440,14 @@ func (i *interpreter) rlock(p *value) {
 	m := i.mutex(p)
 	i.block("mutex rlock", func() bool { return !m.writer })
 	m.readers++
+	i.hbAcquire(p)
 }
 func (i *interpreter) runlock(p *value) {
 	m := i.mutex(p)
 	if m.readers <= 0 {
 		panic(runtimeError("sync: RUnlock of unlocked RWMutex"))
 	}
+	i.hbRelease(p)
 	m.readers--
 	i.preempt("runlock")
 }
